@@ -3119,6 +3119,14 @@ class Mailbox:
         old_name = old_name[1:] if old_name and old_name[0] == "/" else old_name
         new_name = new_name[1:] if new_name and new_name[0] == "/" else new_name
 
+        # A mailbox can not be moved underneath itself: the directory rename
+        # fails half way through, after the db has already been updated.
+        #
+        if new_name.startswith(old_name + "/"):
+            raise InvalidMailbox(
+                f"Can not rename '{old_name}' to a mailbox inside itself"
+            )
+
         mbox = await server.get_mailbox(old_name)
         # The mailbox we are moving to must not exist.
         #
